@@ -153,6 +153,60 @@ def gen_ipc(rng):
     return "i ; %s ; %s ; " % (" ".join(ops), " | ".join(behs))
 
 
+def gen_ipc_burst(rng):
+    """Small alloc_cb buffers, plain data chunks that fill them exactly between the descriptor-carrying
+    messages, the whole burst queued before the receiver's loop runs (several recvmsg per uv__read pass)."""
+    a = rng.choice([1, 1, 2, 3, 4, 4, 5, 7, 8, 8, 13, 16])
+    items, nm, nd, chunks, fds = [], 0, 0, 0, 0
+    for _ in range(rng.randint(2, 14)):
+        r = rng.random()
+        if r < 0.5:
+            n = a * rng.choice([1, 1, 1, 2, 3]) if rng.random() < 0.8 else max(1, a * rng.choice([1, 2]) + rng.choice([-1, 1]))
+            items.append("D%d" % n)
+            nd += 1
+            chunks += (n + a - 1) // a
+        else:
+            k = rng.choice([1, 1, 1, 1, 2, 3])
+            if fds + k > 30:
+                continue
+            items.append("M" + "".join(rng.choice("tud") for _ in range(k)))
+            nm += 1
+            fds += k
+            chunks += 1
+    if not nm:
+        items.append("Mt")
+        nm, fds, chunks = 1, 1, chunks + 1
+    ops = items + ["R"] * (nm + nd + chunks // 32 + 3) + ["N", "T"]
+    for _ in range(rng.choice([fds, fds, fds + 1, fds // 2])):
+        ops.append("Af")
+        if rng.random() < 0.3:
+            ops += ["N", "T"]
+    ops += ["N", "R"]
+    behs = []
+    for _ in range(chunks + 4):
+        r = rng.random()
+        behs.append("" if r < 0.85 else "Af" if r < 0.92 else "N T")
+    return "i%d ; %s ; %s ; " % (a, " ".join(ops), " | ".join(behs))
+
+
+def gen_shortage(rng, mode):
+    """Descriptor-shortage episodes on one loop: shortage on with clients pending, off, a connection accepted
+    normally, on again with a new client pending, ..."""
+    ops, n = [], 0
+    for ep in range(rng.choice([2, 2, 3])):
+        k = rng.choice([1, 1, 2, 3])
+        if n + k + 1 > 38:
+            break
+        ops += ["S1", "K%d" % k] + ["R"] * rng.choice([1, 2, 3]) + ["S0"]
+        n += k
+        if rng.random() < 0.8:
+            ops += ["K1", "R", "Af", "R"]
+            n += 1
+    ops += ["R", "R"]
+    behs = ["" for _ in range(8)]
+    return "%s ; %s ; %s ; " % (mode, " ".join(ops), " | ".join(behs))
+
+
 def gen_connect(rng, kind):
     ops, behs, script = [], [], []
     if kind == "t":
@@ -224,7 +278,7 @@ def acc_model_input(case, out):
     if len(sec) < 6:
         return None
     log, bits, alloc, opn = sec[1].split(), sec[2].split(), sec[3], sec[4]
-    ipc = mode == "i"
+    ipc = mode[:1] == "i"
     groups, cur = [], []
     for t in log:
         if t == "|":
@@ -234,7 +288,7 @@ def acc_model_input(case, out):
             cur.append(t)
     mops, ri, kinds = [], 0, []
     for o in ops.split():
-        if o[0] in "KF":
+        if o[0] in "KFSD":
             continue
         if o[0] == "M":
             kinds += [str(KIND_CODE[k]) for k in o[1:21]]
@@ -294,6 +348,22 @@ def server_monitor(case, out):
     accepted = [int(t[1:]) for t in sec[1].split() if t[0] == "f"]
     bits = sec[2].split()
     states = sec[5] if len(sec) > 5 else ""
+    # descriptor shortage: accept4 said EMFILE/ENFILE and uv__server_io gave up at once although libuv held its
+    # spare descriptor (no re-open ever failed): nothing was shed, the listening socket stays readable, the
+    # loop spins and the pending client is neither accepted nor disconnected
+    if "0" not in sec[4].split():
+        grp, lone = [], 0
+        for t in sec[1].split() + ["|"]:
+            if t == "|":
+                if grp and grp[0] in ("e24", "e23") and len(grp) == 1:
+                    lone += 1
+                grp = []
+            else:
+                grp.append(t)
+        if lone:
+            return None, "accept4 reported a descriptor shortage in %d loop iteration(s) and the server did nothing: " \
+                         "no connection was shed although the spare descriptor had not been lost; the pending client " \
+                         "is neither accepted nor disconnected and every iteration wakes up again" % lone
     seen, claimed, closed = set(), {}, set()
     pending, failed = None, False
     i = 0
@@ -400,6 +470,16 @@ def ipc_monitor(case, out):
     tail = [v.strip() for v in out.split(";")]
     if len(tail) > 6 and tail[6] and tail[6] != "0,0":
         return None, "all handles closed and the loop drained, but uv_loop_alive(),uv_loop_close() = %s" % tail[6]
+    if "T" in tail[1].split():
+        return None, "recvmsg on the ipc pipe came back with MSG_CTRUNC: the kernel discarded descriptor(s) of a " \
+                     "message because no room for control data was offered"
+    if len(tail) > 7 and tail[7] and "F" not in ops.replace("Af", "") and "C" not in ops and "C" not in behs \
+            and "Ab" not in ops and "Ab" not in behs:
+        bs, br, fs = [int(v) for v in tail[7].split(",")]
+        got = sum(1 for t in toks if t[0] == "h")
+        if bs == br and got != fs:
+            return None, "%d descriptors were sent with the %d bytes that all arrived, but only %d reached the " \
+                         "receiving pipe (pending count / uv_accept never see the rest)" % (fs, bs, got)
     queue, nxt = [], 0
     i = 0
     while i < len(toks):
@@ -695,12 +775,19 @@ OBL = {
 
 # fixed cases run on every seed: the known findings' witnesses and the array-growth boundaries
 FIXED = {
-    "srv-u": ["u ; K3 R Ab R K1 R Af R ; | ; ",                       # item 24: failed uv_accept, server stalls
+    "srv-u": ["u ; S1 K2 R R S0 K1 R Af R S1 K2 R R S0 K1 R Af R R ; ; ",
+              "u ; S1 K1 R S0 K1 R Af R S1 K1 R R R S0 R Af R S1 K3 R R S0 K1 R Af R ; ; ",
+              "u ; K3 R Ab R K1 R Af R ; | ; ",                       # item 24: failed uv_accept, server stalls
               "u ; K6 R R Af R ; ; e24 p p e11 o0 e24",
               "u ; K40 " + "R " * 45 + "; " + " | ".join(["Af"] * 45) + " ; "],
-    "srv-t": ["t ; K5 R R Af R Af R ; ; e23 p e4 p e11",
+    "srv-t": ["t ; S1 K2 R R S0 K1 R Af R S1 K2 R R S0 K1 R Af R R ; ; ",
+              "t ; S1 K1 R S0 K1 R Af R S1 K1 R R R S0 R Af R S1 K3 R R S0 K1 R Af R ; ; ",
+              "t ; K5 R R Af R Af R ; ; e23 p e4 p e11",
               "t ; K3 R C R ; | ; "],
-    "ipc": ["i ; " + "Mt R " * 9 + "N T " + "Af N " * 10 + "; ; ",     # 1 + 8 queued: exactly fills the first array
+    "ipc": ["i4 ; D4 Mt D8 Mu Md D4 Mt R R R R R R R R N Af Af Af Af N ; ; ",
+            "i1 ; D1 Mt D1 D1 Mu D2 Mdt R R R R R N T Af Af Af Af N ; ; ",
+            "i8 ; D8 Mt D16 Mtu D24 Md R R R R R R N Af Af Af Af N ; ; ",
+            "i ; " + "Mt R " * 9 + "N T " + "Af N " * 10 + "; ; ",     # 1 + 8 queued: exactly fills the first array
             "i ; " + "Mu R " * 10 + "N T " + "Af N T " * 11 + "; ; ",   # 1 + 9: first growth
             "i ; " + "Md R " * 18 + "N " + "Af N " * 3 + "Mt R N " * 3 + "Af N T " * 19 + "; ; ",
             "i ; Mtudtudtudt Mtudtudtud R R N " + "Af T N " * 20 + "; ; ",
@@ -764,9 +851,9 @@ def main():
     mult = 12 if thorough else 1
     rng = chk.rng
     sets = {
-        "srv-t": [gen_server(rng, "t") for _ in range(300 * mult)],
-        "srv-u": [gen_server(rng, "u") for _ in range(350 * mult)],
-        "ipc": [gen_ipc(rng) for _ in range(600 * mult)],
+        "srv-t": [gen_server(rng, "t") for _ in range(300 * mult)] + [gen_shortage(rng, "t") for _ in range(30 * mult)],
+        "srv-u": [gen_server(rng, "u") for _ in range(350 * mult)] + [gen_shortage(rng, "u") for _ in range(30 * mult)],
+        "ipc": [gen_ipc(rng) for _ in range(600 * mult)] + [gen_ipc_burst(rng) for _ in range(250 * mult)],
         "con-t": [gen_connect(rng, "t") for _ in range(700 * mult)],
         "con-p": [gen_connect(rng, "p") for _ in range(700 * mult)],
         "w": write_table(),
